@@ -87,3 +87,31 @@ Theorem layout_permutation_bijective : forall M k p : Z,
   (0 <= perm M k p < M * k)%Z /\ perm k M (perm M k p) = p.
 Proof. exact perm_bijective_l. Qed.
 Print Assumptions layout_permutation_bijective.
+
+(* generic_assemble_core_vec_{1,2,3}d (cython.py:1088): the prange iterations mu0 = 0..MU0-1,
+   each running the kernel loops incl. the mirrored copies into row transp0[mu0], for ANY
+   number of inner levels, symmetric or not: every location an iteration reads or writes is
+   owned by that iteration alone (rows with diag0 > 0 belong to the iteration of their
+   transposed row, which is the only one writing them), hence every assignment and
+   interleaving of the iterations to threads leaves the same `entries` array.
+   Hypotheses: the level-0 pattern has no duplicates and transp0 is the index of the
+   transposed pattern entry (what get_transpose_idx_for_bidx computes, tied exactly). *)
+Theorem prange_schedule_independent : forall (V : Type) (nc0 nc1 : nat) (B : list Z -> list Z -> nat -> V)
+    (sym : bool) (lv0 : level) (rest : list level) s1 s2,
+  NoDup (fst lv0) -> transp_ok lv0 ->
+  interleave (core_tasks nc0 nc1 B sym (lv0 :: rest)) s1 ->
+  interleave (core_tasks nc0 nc1 B sym (lv0 :: rest)) s2 ->
+  forall m l, exec eloc_eqb s1 m l = exec eloc_eqb s2 m l.
+Proof. exact prange_schedule_independent_l. Qed.
+Print Assumptions prange_schedule_independent.
+
+(* NOT PROVED: symmetric_equals_full_core --
+     forall V vzero nc B lv, (every level pattern duplicate-free, transp_ok) ->
+       (forall i j row col, row < nc -> col < nc -> B j i (col*nc+row) = B i j (row*nc+col)) ->
+       core_entries vzero nc nc B true lv = core_entries vzero nc nc B false lv.
+   Missing: the induction over the kernel's nested loops showing that every index tuple with a
+   lexicographically positive diagonal vector is written exactly by the mirror copy of its transposed
+   tuple (coverage) -- the skip rule and the mirrored store are covered instead by the exact
+   correspondence run, where core_entries .. true .. is compared with the implementation's array for
+   symmetric AND unsymmetric forms in 1D, 2D and 3D.  The scalar and BSR paths are proved
+   (symmetric_equals_full); the write-set side of the kernel is proved (prange_schedule_independent). *)
